@@ -278,12 +278,18 @@ def plans(sig, net, rng):
 
     kw, n = valid_kwargs(sig, net, rng)
     add("valid", kw, n)
-    kw, n = valid_kwargs(sig, net, rng)
+    kw, n = valid_kwargs(sig, net, rng, n=2 if sig.fn == "create_pressure_controls" else None)
     if sig.bulk:
         kw["index"] = [free + 3 * k for k in range(n)][::-1]
     else:
         kw["index"] = free
     add("valid_index", kw, n)
+    if sig.fn == "create_pressure_controls":
+        # plain lists: `controlled_junctions != from_junctions` is ONE bool, index[True] -> index[1]
+        kw, n = valid_kwargs(sig, net, rng, n=1)
+        kw["index"] = [free]
+        kw["from_junctions"], kw["to_junctions"], kw["controlled_junctions"] = [js[0]], [js[1]], [js[2]]
+        add("list_index_late", kw, n, late_bad=True)
     # duplicate / existing index
     if existing:
         kw, n = valid_kwargs(sig, net, rng)
@@ -459,7 +465,7 @@ def run_plans(ctx, sigs):
                     if diff:
                         ctx.violation({"clause": "atomic", "fn": sig.fn, "fault": fault},
                                       "%s raised (%s) but changed %s" % (sig.fn, exc, diff), replay)
-                    if fault.startswith("valid"):
+                    if fault.startswith("valid") or fault == "list_index_late":
                         ctx.violation({"clause": "accepts_valid", "fn": sig.fn, "fault": fault},
                                       "%s rejects a valid call: %s" % (sig.fn, exc), replay)
                 else:
@@ -492,7 +498,7 @@ def run_plans(ctx, sigs):
                                       "%s accepted %s=%r which does not exist (row %d of %s)"
                                       % (sig.fn, col, v, lab, sig.table), replay)
                     if not fault.startswith("valid") and not fault.startswith("dangling") and \
-                            not fault.startswith("unregistered"):
+                            not fault.startswith("unregistered") and fault != "list_index_late":
                         ctx.violation({"clause": "rejects", "fn": sig.fn, "fault": fault},
                                       "%s accepted an invalid call (%s)" % (sig.fn, kind), replay)
                 # ---- case for Coq
@@ -506,7 +512,7 @@ def run_plans(ctx, sigs):
                     rows[0]["index"] = kw.get("index")
                     call = "Single %s %s" % (name, coq_args(rows[0]))
                 nstd = len(net.std_types.get(sig.std["table"], {})) if sig.std else 0
-                cases.append("{| c_schema := %s; c_db := %s; c_call := %s; c_ok := %s; c_labels := %s; c_after := %s; "
+                cases.append("{| c_schema := %s; c_db := @DB@%s@DB@; c_call := %s; c_ok := %s; c_labels := %s; c_after := %s; "
                              "c_std_after := %s |}" % (name, dbtxt, call, cbool(ok),
                                                        clist([cz(int(x)) for x in ((ret if sig.bulk else [ret]) if ok and ret is not None else [])]),
                                                        view_after(net, sig), cnat(nstd)))
@@ -515,12 +521,26 @@ def run_plans(ctx, sigs):
 
 
 def correspond(ctx, cases, meta):
-    size = 150
+    size = 400
     n_tot = n_mis = 0
+    import re
     for s in range(0, len(cases), size):
+        defs, names = [], {}
+
+        def intern(kind, text):
+            if text not in names:
+                names[text] = "%s_%d" % (kind, len(names))
+                defs.append("Definition %s := %s." % (names[text], text))
+            return names[text]
+
+        def sub_db(m):
+            t = m.group(1)
+            t = re.sub(r"d_std := (\[.*\]) \|\}$", lambda mm: "d_std := %s |}" % intern("std", mm.group(1)), t)
+            return intern("db", t)
+        body = [re.sub(r"@DB@(.*?)@DB@", sub_db, c) for c in cases[s:s + size]]
         txt = ("From Coq Require Import String List ZArith Bool.\nFrom PP Require Import Base.Assoc C16.Model Gen.CreateSigs.\n"
-               "Import ListNotations.\nOpen Scope string_scope.\nDefinition cs : list case := [\n%s\n].\n"
-               "Eval vm_compute in (summary cs).\n" % ";\n".join(cases[s:s + size]))
+               "Import ListNotations.\nOpen Scope string_scope.\n%s\nDefinition cs : list case := [\n%s\n].\n"
+               "Eval vm_compute in (summary cs).\n" % ("\n".join(defs), ";\n".join(body)))
         trip, out = ctx.coq_counts(txt, "c16_cases_%d" % (s // size))
         if not trip:
             ctx.broken("correspondence", "C16.create1/create_bulk vs create.py (coqc failed)", out[-800:])
@@ -579,10 +599,10 @@ def monitor_bulk_vs_fold(ctx, sigs, twins):
         if variant == "p_only":
             if not b.eg:
                 continue
-            kw[b.eg["t"]] = [None] * n
+            kw[b.eg["t"]] = None
         if variant in ("all_optional", "scalar_broadcast"):
             for p, dflt in b.params:
-                if p in kw or p in ("index", "geodata", "std_type") or dflt == tsig.REQUIRED:
+                if p in kw or p in ("index", "geodata", "std_type") or dflt == tsig.REQUIRED or (b.eg and p == "type"):
                     continue
                 vals = OPT_VALUES.get(p)
                 if vals is None:
@@ -597,7 +617,7 @@ def monitor_bulk_vs_fold(ctx, sigs, twins):
             ra = type(e).__name__ + ": " + str(e)[:100]
         rb = "ok"
         for i in range(n):
-            kws = {}
+            kws = {"check_controllability": False} if tn == "create_pressure_control" else {}
             for p, v in kw.items():
                 sp = tsig.singular(p)
                 if sp == "nr_junctions":
@@ -644,6 +664,8 @@ def monitor_std_vs_parameters(ctx):
     for nm in names:
         par = load_std_type(proto, nm, "pipe")
         for variant in ("defaults", "explicit"):
+            if ctx.quick and variant == "explicit" and nm not in names[::9]:
+                continue
             na = pp.create_empty_network(fluid="water")
             pp.create_junctions(na, 2, 5, 300)
             nb = copy.deepcopy(na)
